@@ -10,7 +10,12 @@ package llrp
 //                                                 payload}.UnmarshalTo(new(Type)); payload r = io.LimitReader over the bytes
 //                                                 present (what a handler gets), b = already buffered; allocation always measured
 //             limit                              answers MaxBufferedPayloadSz
+//             s  <entry> <Type> <hex|->          client-level entry point: a real Client on net.Pipe whose peer answers with a
+//                                                 frame of <Type>'s message type and the given payload bytes, at the place named
+//                                                 by <entry> (see c11ClientEntry): sendfor | sendfor-err | shutdown | gsv | spv | first
 //   answer:   ok|err|panic:<line>|hang  <mutated 0|1>  <bytes allocated or -1>  <ns>
+//             for s: ok = the call produced a value (nil error / *StatusError / connection became ready), err = an error;
+//             panic:<file:line> = innermost frame of the panic inside pkg/llrp
 //
 // The decoder runs in its own goroutine with recover(); a watchdog (VERIF_C11_WATCHDOG_MS, default 2000)
 // turns a decoder that does not return into the answer `hang`; since a spinning goroutine cannot be
@@ -21,11 +26,15 @@ package llrp
 
 import (
 	"bytes"
+	"context"
 	"encoding"
 	"encoding/hex"
+	"errors"
 	"fmt"
 	"io"
+	"net"
 	"os"
+	"path/filepath"
 	"runtime"
 	"strconv"
 	"strings"
@@ -53,10 +62,34 @@ func c11PanicLine() int {
 	}
 }
 
+// innermost non-test frame of the package's own code: file:line
+func c11PanicWhere() string {
+	pcs := make([]uintptr, 64)
+	n := runtime.Callers(2, pcs)
+	frames := runtime.CallersFrames(pcs[:n])
+	for {
+		fr, more := frames.Next()
+		if strings.Contains(fr.Function, "/pkg/llrp.") && !strings.HasSuffix(fr.File, "_test.go") {
+			return filepath.Base(fr.File) + ":" + strconv.Itoa(fr.Line)
+		}
+		if !more {
+			return "?"
+		}
+	}
+}
+
 func c11Decode(u encoding.BinaryUnmarshaler, data []byte, done chan<- c11Result) {
 	t0 := time.Now()
 	defer func() {
 		if r := recover(); r != nil {
+			if rp, again := r.(c11Repanic); again {
+				done <- c11Result{"panic:" + rp.where, time.Since(t0).Nanoseconds()}
+				return
+			}
+			if _, client := u.(*c11ClientEntry); client {
+				done <- c11Result{"panic:" + c11PanicWhere(), time.Since(t0).Nanoseconds()}
+				return
+			}
 			done <- c11Result{"panic:" + strconv.Itoa(c11PanicLine()), time.Since(t0).Nanoseconds()}
 		}
 	}()
@@ -90,6 +123,191 @@ func (e *c11MsgEntry) UnmarshalBinary(present []byte) error {
 	return m.UnmarshalTo(e.v)
 }
 
+// ---- client-level entry points: the places in reader.go where bytes received from the peer reach a decoder ----
+//
+//	sendfor      SendFor(request, new(Type)); the reply has Type's message type and the payload
+//	sendfor-err  SendFor expecting <Type>; the reply is an ERROR_MESSAGE with the payload
+//	shutdown     Shutdown; CLOSE_CONNECTION is answered by a frame of Type's message type (CloseConnectionResponse / ErrorMessage)
+//	gsv          Connect of a default Client; GET_SUPPORTED_VERSION is answered by Type (GetSupportedVersionResponse / ErrorMessage)
+//	spv          Connect; the version query is answered (1.0.1, max 1.1), SET_PROTOCOL_VERSION is answered by Type
+//	first        Connect; the connection's first message has Type's message type and the payload
+//
+// The peer frames with its own code. What is demanded of every entry: the call returns a value or an error —
+// no panic, no hang, and the error can be rendered. A panic on a goroutine of the Client kills the worker
+// (answer crash:..., filled in by the driver).
+type c11ClientEntry struct {
+	entry string
+	v     encoding.BinaryUnmarshaler
+}
+
+// a panic observed on the goroutine that ran Connect, passed on to the supervised goroutine
+type c11Repanic struct{ where string }
+
+type c11Raw struct {
+	typ  MessageType
+	data []byte
+}
+
+func (o c11Raw) MarshalBinary() ([]byte, error) { return o.data, nil }
+func (o c11Raw) Type() MessageType              { return o.typ }
+
+func c11Frame(ver byte, typ uint16, id uint32, payload []byte) []byte {
+	n := uint32(10 + len(payload))
+	out := make([]byte, 0, n)
+	out = append(out, (ver&7)<<2|byte(typ>>8)&3, byte(typ), byte(n>>24), byte(n>>16), byte(n>>8), byte(n),
+		byte(id>>24), byte(id>>16), byte(id>>8), byte(id))
+	return append(out, payload...)
+}
+
+type c11PeerReply struct {
+	typ     uint16
+	payload []byte
+}
+
+// the peer: writes the first message, then answers the k-th request it reads with the k-th scripted reply
+// (same id); further requests get an empty CUSTOM_MESSAGE.
+func c11Peer(conn net.Conn, firstTyp uint16, first []byte, replies []c11PeerReply, done chan<- struct{}) {
+	defer close(done)
+	if _, err := conn.Write(c11Frame(1, firstTyp, 0, first)); err != nil {
+		return
+	}
+	hdr := make([]byte, 10)
+	for {
+		if _, err := io.ReadFull(conn, hdr); err != nil {
+			return
+		}
+		typ := uint16(hdr[0]&3)<<8 | uint16(hdr[1])
+		total := uint32(hdr[2])<<24 | uint32(hdr[3])<<16 | uint32(hdr[4])<<8 | uint32(hdr[5])
+		id := uint32(hdr[6])<<24 | uint32(hdr[7])<<16 | uint32(hdr[8])<<8 | uint32(hdr[9])
+		if total < 10 {
+			return
+		}
+		if _, err := io.CopyN(io.Discard, conn, int64(total-10)); err != nil {
+			return
+		}
+		if typ == 72 {
+			continue
+		}
+		r := c11PeerReply{1023, nil} // past the script: an empty CUSTOM_MESSAGE
+		if len(replies) > 0 {
+			r, replies = replies[0], replies[1:]
+		}
+		if _, err := conn.Write(c11Frame(1, r.typ, id, r.payload)); err != nil {
+			return
+		}
+	}
+}
+
+func c11tlv(typ uint16, body []byte) []byte {
+	n := 4 + len(body)
+	return append([]byte{byte(typ>>8) & 3, byte(typ), byte(n >> 8), byte(n)}, body...)
+}
+
+func (e *c11ClientEntry) UnmarshalBinary(payload []byte) (err error) {
+	in, isMsg := e.v.(Incoming)
+	if !isMsg {
+		return errors.New("bad request: not a message type")
+	}
+	// a well-formed first message: ReaderEventNotificationData{UTCTimestamp, ConnectionAttemptEvent = Success}
+	firstTyp, first := uint16(63), c11tlv(246, append(c11tlv(128, []byte{0, 0, 0, 0, 0, 0, 0, 1}), c11tlv(256, []byte{0, 0})...))
+	okStatus := c11tlv(287, []byte{0, 0, 0, 0})
+	opts := []ClientOpt{WithLogger(nil)}
+	var replies []c11PeerReply
+	switch e.entry {
+	case "sendfor":
+		opts = append(opts, WithVersion(Version1_0_1))
+		replies = []c11PeerReply{{uint16(in.Type()), payload}}
+	case "sendfor-err":
+		opts = append(opts, WithVersion(Version1_0_1))
+		replies = []c11PeerReply{{uint16(MsgErrorMessage), payload}}
+	case "shutdown":
+		opts = append(opts, WithVersion(Version1_0_1))
+		replies = []c11PeerReply{{uint16(in.Type()), payload}}
+	case "gsv":
+		replies = []c11PeerReply{{uint16(in.Type()), payload}, {57, okStatus}}
+	case "spv":
+		replies = []c11PeerReply{{56, append([]byte{1 << 5, 2 << 5}, okStatus...)}, {uint16(in.Type()), payload}}
+	case "first":
+		opts = append(opts, WithVersion(Version1_0_1))
+		firstTyp, first = uint16(in.Type()), payload
+	default:
+		return errors.New("bad request: unknown entry")
+	}
+	cconn, pconn := net.Pipe()
+	client := NewClient(opts...)
+	peerDone := make(chan struct{})
+	go c11Peer(pconn, firstTyp, first, replies, peerDone)
+	defer func() {
+		_ = client.Close()
+		_ = pconn.Close()
+		_ = cconn.Close()
+		<-peerDone
+	}()
+	ctx, cancel := context.WithTimeout(context.Background(), time.Minute)
+	defer cancel()
+	render := func(err error) error { // the error must be usable, not only present
+		if err != nil {
+			_ = err.Error()
+			_ = fmt.Sprintf("%v %+v", err, err)
+		}
+		return err
+	}
+	switch e.entry {
+	case "sendfor", "sendfor-err", "shutdown":
+		go func() { _ = client.Connect(cconn) }()
+		if e.entry == "shutdown" {
+			return render(client.Shutdown(ctx))
+		}
+		reqT, ok := in.Type().Converse()
+		if !ok || reqT == MsgCloseConnection {
+			reqT = MsgCustomMessage
+		}
+		err = render(client.SendFor(ctx, c11Raw{typ: reqT}, in))
+		var se *StatusError
+		if errors.As(err, &se) && e.entry == "sendfor" {
+			return nil // decoded into a value whose status is not Success
+		}
+		return err
+	default: // gsv, spv, first: Connect itself consumes the bytes, on this goroutine
+		connErr := make(chan error, 1)
+		panicked := make(chan c11Repanic, 1)
+		go func() {
+			defer func() {
+				if r := recover(); r != nil {
+					panicked <- c11Repanic{c11PanicWhere()}
+				}
+			}()
+			connErr <- client.Connect(cconn)
+		}()
+		// either Connect returns (an error), or the connection gets ready and serves a request
+		res := make(chan error, 1)
+		go func() {
+			_, _, err := client.SendMessage(ctx, MsgCustomMessage, nil)
+			res <- err
+		}()
+		select {
+		case rp := <-panicked:
+			panic(rp)
+		case err = <-connErr:
+		case err = <-res:
+			if err == nil {
+				return nil // the connection serves requests: the bytes were accepted
+			}
+			select { // Connect failed and closed the client before the request was sent
+			case rp := <-panicked:
+				panic(rp)
+			case err = <-connErr:
+			case <-time.After(30 * time.Second):
+				return errors.New("request failed but Connect did not return: " + err.Error())
+			}
+		}
+		if err == nil {
+			err = errors.New("Connect returned nil")
+		}
+		return render(err)
+	}
+}
+
 func TestVerifC11(t *testing.T) {
 	lines, w, closeOut := verifIO(t)
 	defer closeOut()
@@ -115,6 +333,11 @@ func TestVerifC11(t *testing.T) {
 			}
 			entry = &c11MsgEntry{declared: uint32(d), buffered: f[3] == "b"}
 			f = []string{"dm", f[1], "0", f[4]}
+		}
+		var centry *c11ClientEntry
+		if len(f) == 4 && f[0] == "s" {
+			centry = &c11ClientEntry{entry: f[1]}
+			f = []string{"d", f[2], "0", f[3]}
 		}
 		if len(f) != 4 || (f[0] != "d" && f[0] != "dm") {
 			fmt.Fprintln(w, "bad request")
@@ -146,6 +369,10 @@ func TestVerifC11(t *testing.T) {
 		if entry != nil {
 			entry.v = u
 			u = entry
+		}
+		if centry != nil {
+			centry.v = u
+			u = centry
 		}
 		done := make(chan c11Result, 1)
 		var m0, m1 runtime.MemStats
